@@ -86,7 +86,7 @@
     }
 
     /// poll from an ARBITRARY inner state satisfying I: Ready(Ok) iff notified (and the flag is cleared), else
-    /// Ready(Err(AlreadyDeleted)) iff sender_count == 0, else Pending with the caller's waker stored; poll wakes nobody
+    /// Ready(Err(AlreadyDeleted)) iff sender_count == 0, else Pending with the waker of THIS poll stored (replacing any waker of an earlier poll); poll wakes nobody
     /// and never changes sender_count.  A pending notification is delivered even after the last sender is gone.
     /// @props C34
     /// @kind proof
@@ -123,6 +123,16 @@
         }
         assert!(c2 == n);
         assert!(wakes(&c) == 0 && wakes(&old) == 0);
+        if r == 0 {
+            // the waker that a later notify / last drop will wake must be the one of THIS (most recent) poll, not a stale
+            // one from an earlier poll: wake whatever is stored and see who was woken
+            let stored = critical_section::with(|cs| rx.inner.borrow(cs).borrow_mut().waker.take());
+            match stored {
+                Some(sw) => sw.wake(),
+                None => assert!(false),
+            }
+            assert!(wakes(&c) == 1 && wakes(&old) == 0, "C34: Pending registers the waker of the most recent poll (a stale waker would lose the wake-up)");
+        }
         core::mem::forget(tx);
         core::mem::forget(rx);
         core::mem::forget(w);
